@@ -41,6 +41,32 @@ class C07(Property):
         p = gen.con(*fields) if len(fields) > 1 else gen.con(fields[0], gen.pure(gen.vnum(0)))
         return gen.options(p, descr="Lc7"), alts, wrap, node, fields
 
+    def gen_def_nullable(self, rng):
+        """A bare choice whose alternatives ALL succeed on nothing (flags with a default, optional / defaulted arguments),
+        each with its own distinguishable null value: on a line with none of their items the first listed one wins."""
+        names = gen.Names(rng)
+        alts, nulls, leaves = [], [], []
+        for i in range(rng.choice([2, 2, 3])):
+            r = rng.random()
+            if r < 0.5:
+                a = gen.flag(names.named(help_p=0.1), gen.vnum(100 + i), gen.vnum(200 + i))
+                alts.append(a); nulls.append(gen.vnum(200 + i)); leaves.append(a)
+            elif r < 0.75:
+                a = gen.arg(names.named(help_p=0.1), "V", "string")
+                alts.append(gen.wrap("fallback", a, v=gen.vnum(300 + i), show=False)); nulls.append(gen.vnum(300 + i)); leaves.append(a)
+            else:
+                a = gen.arg(names.named(help_p=0.1), "V", "string")
+                alts.append(gen.wrap("optional", a, catch=False)); nulls.append("none"); leaves.append(a)
+        # two `optional` alternatives would both yield `none`: keep the null values pairwise different
+        if len(set(nulls)) < len(nulls):
+            return self.gen_def_nullable(rng)
+        node = gen.alt(*alts)
+        fields = [node]
+        for _ in range(rng.choice([1, 2])):
+            fields.append(gen.gen_named_item(rng, names))
+        rng.shuffle(fields)
+        return gen.options(gen.con(*fields), descr="Lc7n"), alts, nulls, leaves, node, fields
+
     @staticmethod
     def occ(rng, alt, i):
         """(items, expected value sexp) of one occurrence of alternative alt"""
@@ -54,6 +80,27 @@ class C07(Property):
         cases = []
         k = 0
         while len(cases) < n:
+            if rng.random() < 0.15:
+                opts, nalts, nulls, leaves, node, fields = self.gen_def_nullable(rng)
+                others = [f for f in fields if f is not node]
+                for j in range(3):
+                    s = gen.Sentence()
+                    for f in others:
+                        gen.gen_sentence(rng, f, s, 0.6)
+                    argv = [i for c in s.named for i in c]
+                    pick = None if j == 0 else rng.randrange(len(nalts))
+                    want = nulls[0]
+                    if pick is not None:
+                        items, val = self.occ(rng, leaves[pick], j)
+                        argv = argv[:rng.randrange(len(argv) + 1)]
+                        rest = [i for c in s.named for i in c][len(argv):]
+                        argv = argv + items + rest
+                        want = val if nalts[pick]["k"] != "optional" else "(some %s)" % val
+                    cases.append(Case("g%dn%d" % (k, j), opts, argv,
+                                      tags={"wrap": "nullable", "picks": [] if pick is None else [pick], "expect": [want],
+                                            "field": fields.index(node), "nfields": len(fields), "distinct": 0 if pick is None else 1}))
+                k += 1
+                continue
             opts, alts, wrap, node, fields = self.gen_def(rng)
             others = [f for f in fields if f is not node]
             for _ in range(4):
@@ -121,6 +168,14 @@ class C07(Property):
             if picks:
                 nontrivial.append(c.line())
             fv = self.field_value(ic[1], t["field"], t["nfields"]) if cls == "OK" else None
+            if wrap == "nullable":
+                nontrivial.append(c.line())
+                if cls == "OK" and fv != expect[0]:
+                    what = ("no item of any alternative is on the line: ties go to the alternative listed first" if not picks
+                            else "only one alternative has an item on the line: it wins")
+                    out.append(Finding("violation", c, "a choice between alternatives that all succeed on nothing returned %s instead of "
+                                                       "%s (%s)" % (fv, expect[0], what)))
+                continue
             if wrap in ("bare", "optional"):
                 if t["distinct"] >= 2 and cls == "OK":
                     out.append(Finding("violation", c, "items of two different alternatives on one line, yet the run yields a value "
